@@ -91,13 +91,21 @@ func VerifC01WriteSequence() {
 			vf.Assume(1 <= dn)
 			vf.Assume(dn <= 7)
 			names := [8]note.DegreeName{note.UnknownDegree, note.PerfectDegree, note.MajorDegree, note.MajorDegree, note.PerfectDegree, note.PerfectDegree, note.MajorDegree, note.MajorDegree}
-			c := op.NewChord(note.Degree{Value: uint(dn), Name: names[dn]}, rec, nil)
+			// every other chord is written over its own root an octave up (base "8"): the bass
+			// then lands on the same key as the root and must still get its own note-on
+			var bass *note.Degree
+			bassUp := 0
+			if i%2 == 1 {
+				bass = &note.Degree{Value: 8, Name: note.PerfectDegree}
+				bassUp = 12
+			}
+			c := op.NewChord(note.Degree{Value: uint(dn), Name: names[dn]}, rec, bass)
 			in.Chord = &c
 			// the pitches the property demands, from the reference definitions only (nothing
 			// of the implementation is consulted): middle C + tonic of the key in force +
 			// major-scale size of the degree; "" = 0-4-7, m7 = 0-3-7-10, sus4 = 0-5-7 above it, bass = root an octave down
 			root := 60 + spec.RawPitch(cl, ca) + [8]int{0, 0, 2, 4, 5, 7, 9, 11}[dn]
-			keys := []MIDINoteNumber{MIDINoteNumber(root - 12)}
+			keys := []MIDINoteNumber{MIDINoteNumber(root - 12 + bassUp)}
 			for _, iv := range [][]int{{0, 4, 7}, {0, 3, 7, 10}, {0, 5, 7}}[si] {
 				keys = append(keys, MIDINoteNumber(root+iv))
 			}
